@@ -7,9 +7,13 @@ From PW.proofs Require Import P_vec P_mat P_nplist P_affine P_rotation P_composi
 Import ListNotations.
 Local Open Scope R_scope.
 
+Section WithAttrs.
+  Context (attrs : list string) (pa : string).
+
+
 
 (* ---------------- invariant over all histories ---------------- *)
-Lemma cm_step_tr st o : exists added, cm_tr (fst (cm_step ROps st o)) = cm_tr st ++ added.
+Lemma cm_step_tr st o : exists added, cm_tr (fst (cm_step ROps attrs pa st o)) = cm_tr st ++ added.
 Proof.
   destruct o as [t|n|n p|n|p a b]; cbn [cm_step].
   - destruct (step ROps (cm_tr st) t) as [[tr' i]|e] eqn:E; cbn [fst cm_tr].
@@ -17,14 +21,14 @@ Proof.
     + exists []. symmetry; apply app_nil_r.
   - exists []. symmetry; apply app_nil_r.
   - destruct (tag_lookup n (cm_tags st)); exists []; symmetry; apply app_nil_r.
-  - destruct (attr_shadowed n); [exists []; symmetry; apply app_nil_r|]. destruct (cm_points st) as [[tg p]|]; exists []; symmetry; apply app_nil_r.
+  - destruct (attr_shadowed attrs n); [exists []; symmetry; apply app_nil_r|]. destruct (cm_points st) as [[tg p]|]; exists []; symmetry; apply app_nil_r.
   - exists []. symmetry; apply app_nil_r.
 Qed.
 Lemma Forall_le_app (tags : list (string * nat)) (l added : cstate (F:=R)) :
   Forall (fun ni => (snd ni <= List.length l)%nat) tags ->
   Forall (fun ni => (snd ni <= List.length (l ++ added))%nat) tags.
 Proof. intros H. eapply Forall_impl; [|exact H]. cbn. intros a Ha. rewrite app_length. lia. Qed.
-Lemma cm_step_Inv st o : cm_op_ok o -> cm_Inv st -> cm_Inv (fst (cm_step ROps st o)).
+Lemma cm_step_Inv st o : cm_op_ok o -> cm_Inv st -> cm_Inv (fst (cm_step ROps attrs pa st o)).
 Proof.
   intros Ho [Hi Ht]. destruct o as [t|n|n p|n|p a b]; cbn [cm_step cm_op_ok] in *.
   - destruct (step ROps (cm_tr st) t) as [[tr' i]|e] eqn:E; cbn [fst]; [|split; assumption].
@@ -33,15 +37,15 @@ Proof.
     + destruct (step_spec _ _ _ _ E) as (_ & fr & _ & ->). apply Forall_le_app, Ht.
   - split; cbn [cm_tr cm_tags fst]; [exact Hi|]. constructor; [cbn; lia | exact Ht].
   - destruct (tag_lookup n (cm_tags st)); cbn [fst]; split; assumption.
-  - destruct (attr_shadowed n); [split; assumption|]. destruct (cm_points st) as [[tg q]|]; cbn [fst]; split; assumption.
+  - destruct (attr_shadowed attrs n); [split; assumption|]. destruct (cm_points st) as [[tg q]|]; cbn [fst]; split; assumption.
   - split; assumption.
 Qed.
-Lemma cm_final_Inv ops : forall st, Forall cm_op_ok ops -> cm_Inv st -> cm_Inv (cm_final ROps ops st).
+Lemma cm_final_Inv ops : forall st, Forall cm_op_ok ops -> cm_Inv st -> cm_Inv (cm_final ROps attrs pa ops st).
 Proof.
   induction ops as [|o ops IH]; intros st Ho Hs; cbn [cm_final fold_left]; [exact Hs|].
   inversion Ho; subst. apply IH; [assumption | apply cm_step_Inv; assumption].
 Qed.
-Lemma cm_Inv_reachable ops : Forall cm_op_ok ops -> cm_Inv (cm_final ROps ops (cm_init (F:=R))).
+Lemma cm_Inv_reachable ops : Forall cm_op_ok ops -> cm_Inv (cm_final ROps attrs pa ops (cm_init (F:=R))).
 Proof. intros H. apply cm_final_Inv; [exact H|]. split; constructor. Qed.
 Lemma tag_lookup_bound st n i : cm_Inv st -> tag_lookup n (cm_tags st) = Some i -> (i <= List.length (cm_tr st))%nat.
 Proof.
@@ -142,18 +146,18 @@ Lemma tag_lookup_same n i tags : tag_lookup n ((n, i) :: tags) = Some i.
 Proof. cbn [tag_lookup]. rewrite String.eqb_refl. reflexivity. Qed.
 
 Lemma cm_step_lookup st o a : not_retag a o ->
-  tag_lookup a (cm_tags (fst (cm_step ROps st o))) = tag_lookup a (cm_tags st).
+  tag_lookup a (cm_tags (fst (cm_step ROps attrs pa st o))) = tag_lookup a (cm_tags st).
 Proof.
   destruct o as [t|n|n p|n|p x y]; cbn [cm_step not_retag]; intros H.
   - destruct (step ROps (cm_tr st) t) as [[tr' i]|e]; reflexivity.
   - cbn [fst cm_tags]. apply tag_lookup_other, H.
   - destruct (tag_lookup n (cm_tags st)); reflexivity.
-  - destruct (attr_shadowed n); [reflexivity|]. destruct (cm_points st) as [[tg q]|]; reflexivity.
+  - destruct (attr_shadowed attrs n); [reflexivity|]. destruct (cm_points st) as [[tg q]|]; reflexivity.
   - reflexivity.
 Qed.
 Lemma do_transform_preserved_step st o pts a b : cm_Inv st -> not_retag a o -> not_retag b o ->
   (exists r, do_transform ROps st pts a b = Ok r) ->
-  do_transform ROps (fst (cm_step ROps st o)) pts a b = do_transform ROps st pts a b.
+  do_transform ROps (fst (cm_step ROps attrs pa st o)) pts a b = do_transform ROps st pts a b.
 Proof.
   intros Hinv Ha Hb (r & Hr). unfold do_transform in *. rewrite !cm_step_lookup by assumption.
   destruct (tag_lookup a (cm_tags st)) as [i|] eqn:Ei; [|discriminate].
@@ -164,52 +168,56 @@ Qed.
 Lemma do_transform_preserved ops : forall st pts a b, Forall cm_op_ok ops -> cm_Inv st ->
   Forall (not_retag a) ops -> Forall (not_retag b) ops ->
   (exists r, do_transform ROps st pts a b = Ok r) ->
-  do_transform ROps (cm_final ROps ops st) pts a b = do_transform ROps st pts a b.
+  do_transform ROps (cm_final ROps attrs pa ops st) pts a b = do_transform ROps st pts a b.
 Proof.
   induction ops as [|o ops IH]; intros st pts a b Hok Hinv Ha Hb Hr; cbn [cm_final fold_left]; [reflexivity|].
   inversion Hok; subst. inversion Ha; subst. inversion Hb; subst.
   pose proof (do_transform_preserved_step st o pts a b Hinv H3 H5 Hr) as E.
-  fold (cm_final ROps ops (fst (cm_step ROps st o))). rewrite IH; try assumption.
+  fold (cm_final ROps attrs pa ops (fst (cm_step ROps attrs pa st o))). rewrite IH; try assumption.
   - apply cm_step_Inv; assumption.
   - rewrite E. exact Hr.
 Qed.
 
 (* ---------------- the three refusals ---------------- *)
 Lemma set_unknown_tag st n pts : tag_lookup n (cm_tags st) = None ->
-  cm_step ROps st (CSetAttr n pts) = (st, Raise AttributeError).
+  cm_step ROps attrs pa st (CSetAttr n pts) = (st, Raise AttributeError).
 Proof. intros H. cbn [cm_step]. rewrite H. reflexivity. Qed.
 Lemma do_transform_unknown_tag st pts a b :
   tag_lookup a (cm_tags st) = None \/ tag_lookup b (cm_tags st) = None ->
-  cm_step ROps st (CDoTransform pts a b) = (st, Raise KeyError).
+  cm_step ROps attrs pa st (CDoTransform pts a b) = (st, Raise KeyError).
 Proof.
   intros H. cbn [cm_step]. unfold do_transform. destruct (tag_lookup a (cm_tags st)); [|reflexivity].
   destruct (tag_lookup b (cm_tags st)); [|reflexivity]. destruct H; discriminate.
 Qed.
-Lemma get_before_set st n : attr_shadowed n = false -> cm_points st = None ->
-  cm_step ROps st (CGetAttr n) = (st, Raise ValueError).
+Lemma get_before_set st n : attr_shadowed attrs n = false -> cm_points st = None ->
+  cm_step ROps attrs pa st (CGetAttr n) = (st, Raise ValueError).
 Proof. intros Hs H. cbn [cm_step]. rewrite Hs, H. reflexivity. Qed.
 (* reading through an attribute = do_transform from the tag the points were assigned at *)
-Lemma get_is_do_transform st tag pts n : attr_shadowed n = false -> cm_points st = Some (tag, pts) ->
-  cm_step ROps st (CGetAttr n) = cm_step ROps st (CDoTransform pts tag n).
+Lemma get_is_do_transform st tag pts n : attr_shadowed attrs n = false -> cm_points st = Some (tag, pts) ->
+  cm_step ROps attrs pa st (CGetAttr n) = cm_step ROps attrs pa st (CDoTransform pts tag n).
 Proof. intros Hs H. cbn [cm_step]. rewrite Hs, H. reflexivity. Qed.
 (* a tag named like an attribute of the class: the attribute read does not convert *)
-Lemma get_shadowed_refuted : exists (st : cm_state (F:=R)) tag pts n,
-  cm_points st = Some (tag, pts) /\ tag_lookup n (cm_tags st) <> None /\
-  snd (cm_step ROps st (CGetAttr n)) <> snd (cm_step ROps st (CDoTransform pts tag n)).
+Lemma get_shadowed_refuted : attr_shadowed attrs "flip"%string = true -> pa <> "flip"%string ->
+  exists (st : cm_state (F:=R)) tag pts,
+  cm_points st = Some (tag, pts) /\ tag_lookup "flip"%string (cm_tags st) <> None /\
+  snd (cm_step ROps attrs pa st (CGetAttr "flip"%string)) <> snd (cm_step ROps attrs pa st (CDoTransform pts tag "flip"%string)).
 Proof.
+  intros Hs Hpa.
   exists (MkCM [("flip"%string, 1%nat); ("a"%string, 0%nat)] (Some ("a"%string, [V3 1 2 3])) [tm_translation ROps (V3 1 0 0)]),
-    "a"%string, [V3 1 2 3], "flip"%string.
-  split; [reflexivity|]. split; [cbn; discriminate|]. cbn. discriminate.
+    "a"%string, [V3 1 2 3].
+  split; [reflexivity|]. split; [cbn; discriminate|]. cbn [cm_step snd]. rewrite Hs.
+  destruct (String.eqb_spec "flip"%string pa) as [E|E]; [exfalso; apply Hpa; symmetry; exact E|].
+  cbn. discriminate.
 Qed.
 Lemma set_known_tag st n i pts : tag_lookup n (cm_tags st) = Some i ->
-  cm_step ROps st (CSetAttr n pts) = (MkCM (cm_tags st) (Some (n, pts)) (cm_tr st), Ok OutNone).
+  cm_step ROps attrs pa st (CSetAttr n pts) = (MkCM (cm_tags st) (Some (n, pts)) (cm_tr st), Ok OutNone).
 Proof. intros H. cbn [cm_step]. rewrite H. reflexivity. Qed.
 Lemma do_transform_known st pts a b i j : tag_lookup a (cm_tags st) = Some i -> tag_lookup b (cm_tags st) = Some j ->
   do_transform ROps st pts a b = Ok (convert ROps (cm_tr st) i j pts).
 Proof. intros Ha Hb. unfold do_transform. rewrite Ha, Hb. reflexivity. Qed.
 Lemma tag_as_records_length st n :
-  tag_lookup n (cm_tags (fst (cm_step ROps st (CTagAs n)))) = Some (List.length (cm_tr st)) /\
-  cm_tr (fst (cm_step ROps st (CTagAs n))) = cm_tr st.
+  tag_lookup n (cm_tags (fst (cm_step ROps attrs pa st (CTagAs n)))) = Some (List.length (cm_tr st)) /\
+  cm_tr (fst (cm_step ROps attrs pa st (CTagAs n))) = cm_tr st.
 Proof. cbn [cm_step fst cm_tags cm_tr]. split; [apply tag_lookup_same | reflexivity]. Qed.
 
 (* ---------------- the same at the level of tag names ---------------- *)
@@ -229,3 +237,5 @@ Proof.
   unfold do_transform in *. destruct (tag_lookup a (cm_tags st)) as [i|]; [|discriminate].
   rewrite convert_same. reflexivity.
 Qed.
+
+End WithAttrs.
